@@ -551,10 +551,10 @@ package commitlog
 // Compaction (property C08): a message that must survive is written, unchanged, to the cleaned segment
 //
 // key table: an entry only ever moves forward (the latest offset per key), and only committed offsets enter it
-//@ func (*keyOffset).set serves C08
+//@ func (*keyOffset).set serves C08, C11
 //@   assumes k != nil
 //@   ensures [max] k.offset == (offset > old(k.offset) ? offset : old(k.offset))
-//@ func (*keyOffset).get serves C08
+//@ func (*keyOffset).get serves C08, C11
 //@   assumes k != nil
 //@   modifies nothing
 //@   ensures result == k.offset
@@ -562,7 +562,7 @@ package commitlog
 // enter the table (string(nil) == "" is also the slot of the empty, non-nil key)
 //@ ghost var scannedKeyless bool
 //@ ghost var scannedKey string
-//@ func (*compactCleaner).scanSegments serves C08
+//@ func (*compactCleaner).scanSegments serves C08, C11
 //@   loop 2 invariant err == nil ==> len(ms) > 28
 //@   ghost after call Key: ghost.scannedKeyless := isnil(ret0)
 //@   ghost after call Key: ghost.scannedKey := str(ret0)
@@ -572,12 +572,12 @@ package commitlog
 //@   call (*keyOffset).set requires [latest-offset-recorded] arg1 == offset
 
 // message set header: offset(8) timestamp(8) leader epoch(8) size(4), big endian
-//@ func (messageSet).Offset serves C08, C01, C14
+//@ func (messageSet).Offset serves C08, C01, C14, C11
 //@   requires [C14:a-whole-header-is-there] len(ms) >= 28
 //@   safety C14
 //@   modifies nothing
 //@   ensures len(ms) >= 28 ==> result == int64(be64(ms, 0))
-//@ func (messageSet).LeaderEpoch serves C08, C01, C14
+//@ func (messageSet).LeaderEpoch serves C08, C01, C14, C11
 //@   requires [C14:a-whole-header-is-there] len(ms) >= 28
 //@   safety C14
 //@   modifies nothing
@@ -596,14 +596,14 @@ package commitlog
 //@   returns (ms, e, err)
 //@   ensures err == nil ==> len(ms) > 28 && e != nil
 //@   ensures forall x *segment :: x.lastOffset == old(x.lastOffset) && x.BaseOffset == old(x.BaseOffset) && x.position == old(x.position) && x.firstOffset == old(x.firstOffset)
-//@ func newSegmentScanner serves C08
+//@ func newSegmentScanner serves C08, C11
 //@   ensures result != nil && result.s == segment
 // rewriteTarget: the (empty) segment a clean or truncation rewrites this one into
-//@ func (*segment).rewriteTarget serves C08, C01, C05
+//@ func (*segment).rewriteTarget serves C08, C01, C05, C11
 //@   returns (c, err)
 //@   requires s != nil
 //@   ensures err == nil ==> c != nil && c.BaseOffset == old(s.BaseOffset)
-//@ func (*segment).Cleaned serves C08
+//@ func (*segment).Cleaned serves C08, C11
 //@   returns (c, err)
 //@   requires s != nil
 //@   ensures err == nil ==> c != nil && c.BaseOffset == old(s.BaseOffset)
@@ -611,7 +611,7 @@ package commitlog
 //@ globalinv ErrMalformedMessageSet serves C14, C08, C01, C02: ErrMalformedMessageSet != nil
 // (C14: whatever bytes a replication response carries, walking them as a message set does not crash, and a set whose
 //  first message does not fit the bytes that follow its header is refused)
-//@ func entriesForMessageSet serves C08, C01, C02, C14
+//@ func entriesForMessageSet serves C08, C01, C02, C14, C11
 //@   returns (result, err)
 //@   safety C14
 //@   loop 1 invariant [C14:walk] n >= 0
@@ -633,7 +633,7 @@ package commitlog
 // or at/above the high watermark) has been written - successfully - to the cleaned segment; what is written is the
 // scanned message set itself, indexed at the cleaned segment's position; the cleaned segment replaces this one.
 //@ ghost var wrote bool
-//@ func (*compactCleaner).cleanSegment serves C08
+//@ func (*compactCleaner).cleanSegment serves C08, C11
 //@   requires seg != nil && keyOffsets != nil && epochCache != nil && wfEpochs(epochCache)
 //@   loop 1 invariant cleaned != nil && wfEpochs(epochCache) && (err == nil ==> len(ms) > 28)
 //@   ensures [epochs-wf] wfEpochs(epochCache)
@@ -653,10 +653,10 @@ package commitlog
 // (C08) what becomes of the SOURCE segment of a clean: whether the cleaned segment takes its place (Replace) or nothing
 // of it survived (cleanupEmptySegment), the source is flagged replaced - readers positioned in it are sent on to the
 // current segment list (see ReadAt) - and cleanSegment reports success only then
-//@ func cleanupEmptySegment serves C08
+//@ func cleanupEmptySegment serves C08, C11
 //@   assumes new != nil && old != nil
 //@   ensures [readers-in-the-dropped-segment-are-sent-on] result == nil ==> old.replaced
-//@ func (*segment).Replace serves C08
+//@ func (*segment).Replace serves C08, C11
 //@   ensures [readers-in-the-replaced-segment-are-sent-on] result == nil ==> old.replaced
 // compact: the newest segment is never cleaned and stays last; every other segment is cleaned with the same table and HW
 //@ func (*compactCleaner).compact serves C08
@@ -893,6 +893,20 @@ package commitlog
 // never leaves an index entry for bytes that are not there (recovery trusts the index for the last offset).
 // checkpoints (high watermark, leader epochs) are replaced atomically: the only file-writing callee is atomic_file.WriteFile
 //@ callees (*commitLog).checkpointHW serves C05: strconv, strings, path/filepath, github.com/natefinch/atomic
+// (C11: a cursor is fetched by a COMMITTED reverse read of the cursors partition, "regardless of ... its partitions being
+// paused and resumed ... and the server restarting": what was committed when a log is closed must be committed when it
+// is opened again.) A checkpoint that reports success has left the CURRENT high watermark in the checkpoint file -
+// whatever it wrote before - and a log's segments are closed only after such a checkpoint.
+//@ ghost var hwFormatted int64
+//@ ghost var hwOnDisk ghostmap[*commitLog]int64
+//@ func (*commitLog).checkpointHW serves C11
+//@   assumes l != nil
+//@   ghost after call FormatInt: ghost.hwFormatted := arg0
+//@   ghost after call WriteFile: ghost.hwOnDisk[l] := (ret0 == nil ? ghost.hwFormatted : ghost.hwOnDisk[l])
+//@   ensures [C11:the-checkpoint-file-holds-the-current-watermark] result == nil ==> ghost.hwOnDisk[l] == l.hw
+//@ func (*commitLog).close serves C11
+//@   assumes l != nil
+//@   call (*segment).Close requires [C11:the-watermark-is-checkpointed-before-the-segments-are-closed] ghost.hwOnDisk[l] == l.hw
 //@ callees (*leaderEpochCache).flush serves C05: bytes, fmt, github.com/natefinch/atomic
 
 // ---------------------------------------------------------------------------------------------
